@@ -70,10 +70,11 @@ impl InferShapes for Add {
         sym_gen: &mut SymbolGen,
     ) -> Result<Vec<SymTensor>, InferShapesError> {
         let add = |x: &SymExpr, y: &SymExpr| {
-            Some(match (x, y) {
-                (SymExpr::Value(x), SymExpr::Value(y)) => SymExpr::Value(x + y),
-                _ => x.clone() + y.clone(),
-            })
+            match (x, y) {
+                // If the result does not fit, the value is unknown.
+                (SymExpr::Value(x), SymExpr::Value(y)) => x.checked_add(*y).map(SymExpr::Value),
+                _ => Some(x.clone() + y.clone()),
+            }
         };
         binary_op_infer_shapes(inputs, sym_gen, add)
     }
@@ -91,10 +92,10 @@ impl InferShapes for Sub {
         sym_gen: &mut SymbolGen,
     ) -> Result<Vec<SymTensor>, InferShapesError> {
         let sub = |x: &SymExpr, y: &SymExpr| {
-            Some(match (x, y) {
-                (SymExpr::Value(x), SymExpr::Value(y)) => SymExpr::Value(x - y),
-                _ => x.clone() - y.clone(),
-            })
+            match (x, y) {
+                (SymExpr::Value(x), SymExpr::Value(y)) => x.checked_sub(*y).map(SymExpr::Value),
+                _ => Some(x.clone() - y.clone()),
+            }
         };
         binary_op_infer_shapes(inputs, sym_gen, sub)
     }
@@ -112,10 +113,10 @@ impl InferShapes for Div {
         sym_gen: &mut SymbolGen,
     ) -> Result<Vec<SymTensor>, InferShapesError> {
         let div = |x: &SymExpr, y: &SymExpr| {
-            Some(match (x, y) {
-                (SymExpr::Value(x), SymExpr::Value(y)) if *y != 0 => SymExpr::Value(x / y),
-                _ => x.clone() / y.clone(),
-            })
+            match (x, y) {
+                (SymExpr::Value(x), SymExpr::Value(y)) if *y != 0 => x.checked_div(*y).map(SymExpr::Value),
+                _ => Some(x.clone() / y.clone()),
+            }
         };
         binary_op_infer_shapes(inputs, sym_gen, div)
     }
@@ -165,10 +166,10 @@ impl InferShapes for Mul {
         sym_gen: &mut SymbolGen,
     ) -> Result<Vec<SymTensor>, InferShapesError> {
         let mul = |x: &SymExpr, y: &SymExpr| {
-            Some(match (x, y) {
-                (SymExpr::Value(x), SymExpr::Value(y)) => SymExpr::Value(x * y),
-                _ => x.clone() * y.clone(),
-            })
+            match (x, y) {
+                (SymExpr::Value(x), SymExpr::Value(y)) => x.checked_mul(*y).map(SymExpr::Value),
+                _ => Some(x.clone() * y.clone()),
+            }
         };
         binary_op_infer_shapes(inputs, sym_gen, mul)
     }
